@@ -304,7 +304,14 @@ class RelaxationNoise(Noise):
         """
         if (isinstance(T, numbers.Real) and T > 0) or T is None:
             return [T] * N
-        elif isinstance(T, Iterable) and len(T) == N:
+        elif (
+            isinstance(T, Iterable)
+            and len(T) == N
+            and all(
+                t is None or (isinstance(t, numbers.Real) and t > 0)
+                for t in T
+            )
+        ):
             return T
         else:
             raise ValueError(
